@@ -47,10 +47,11 @@ class RR:
     HINFO: (cpu, os) bytes; NSEC: (next_name, [types]); other: bytes.
     """
 
-    __slots__ = ("name", "type", "cls", "flush", "ttl", "rdata")
+    __slots__ = ("name", "type", "cls", "flush", "ttl", "rdata", "scope")
 
     def __init__(self, name, type_, ttl, rdata, flush=False, cls=C_IN):
         self.name, self.type, self.cls, self.flush, self.ttl, self.rdata = name, type_, cls, bool(flush), ttl, rdata
+        self.scope = None  # IPv6 scope of the receiving socket (AAAA only; part of the record identity, C20)
 
     def ident(self):
         """Record identity: owner (case-insensitive), type, class, rdata (targets case-insensitive)."""
@@ -65,6 +66,8 @@ class RR:
             rd = (bytes(rd[0]), bytes(rd[1]))
         elif isinstance(rd, (bytes, bytearray)):
             rd = bytes(rd)
+            if self.type == T_AAAA and self.scope is not None:
+                rd = (rd, self.scope)
         return (self.name.lower(), self.type, self.cls, rd)
 
     def rrset(self):
